@@ -203,6 +203,86 @@ pub fn check_case(c: &Case) -> CheckResult {
 }
 const CASE_CLASSES: &[&str] = &["row_rollover_inside", "empty_position_at_edge", "empty_window", "ends_at_terminal", "starts_mid_row", "multi_combo_ranges", "repeated_scope_calls", "no_scope_call", "hundred_plus_calls_after_exhaustion"];
 
+/// A scoped run compared directly with the reference ENUMERATION MODEL restricted to the window
+/// (not with the unscoped run): multiset of deals, probabilities, exhaustion.  Cheap for short
+/// windows, which makes it the oracle of the coverage-guided target fz_eval.
+pub fn check_window_model(c: &Case) -> CheckResult {
+    vensure!(c.cfg.valid() && c.cfg.scope.is_none() && c.cfg.ranges.iter().all(|r| !r.combos.is_empty()) && c.scopes.iter().all(|(a, b)| a <= b && *b <= 1176), "bad-case", "invalid case");
+    let (mut from, mut to) = (0u16, 1176u16);
+    let tr = Translator::new(&c.cfg);
+    let widths = key_widths(&c.cfg);
+    let mut ev = c.cfg.evaluator();
+    for (a, b) in &c.scopes {
+        let (pa, pb) = (index_pos(*a), index_pos(*b));
+        ev.scope(pa.0, pa.1, pb.0, pb.1);
+        from = *a;
+        to = *b;
+    }
+    let mut deals = Vec::new();
+    let mut blocked = 0u64;
+    model_deals(&c.cfg, index_pos(from), index_pos(to), &mut deals, &mut blocked);
+    deals.sort_by_key(|d| d.key);
+    let mut got: Vec<DealKey> = vec![];
+    let mut last = 0u16;
+    let mut it = ev.into_iter();
+    while let Some(s) = it.next() {
+        let rec = tr.record(&s)?;
+        vensure!(rec.t < rec.r, "turn-river-order", "turn/river positions ({}, {})", rec.t, rec.r);
+        let p = pos_index(rec.t, rec.r);
+        vensure!(p >= from && p < to, "scope-outside", "scope {:?}..{:?} yields a showdown at position {:?}", index_pos(from), index_pos(to), index_pos(p));
+        vensure!(p >= last, "scope-order", "positions step back from {:?} to {:?}", index_pos(last), index_pos(p));
+        last = p;
+        let k = rec.key(&widths);
+        match deals.binary_search_by_key(&k, |d| d.key) {
+            Ok(i) => {
+                crate::props::c02::check_probability(&c.cfg, &rec.combos, f32::from_bits(rec.prob_bits), deals[i].prob).map_err(|e| Fail::new("probability", format!("deal {}: {}", describe_key(&c.cfg, k), e)))?;
+            }
+            Err(_) => return Err(Fail::new("extra-deal", format!("scope {:?}..{:?} yields a deal the model does not have there: {}", index_pos(from), index_pos(to), describe_key(&c.cfg, k)))),
+        }
+        got.push(k);
+        vensure!(got.len() <= deals.len(), "over-production", "scope {:?}..{:?}: more than the {} legal deals of the window", index_pos(from), index_pos(to), deals.len());
+    }
+    for k in 0..c.extra_next {
+        vensure!(it.next().is_none(), "not-exhausted", "call {} after exhaustion returned a showdown", k + 1);
+    }
+    got.sort_unstable();
+    for w in got.windows(2) {
+        vensure!(w[0] != w[1], "duplicate-deal", "deal yielded twice: {}", describe_key(&c.cfg, w[0]));
+    }
+    if got.len() != deals.len() {
+        let mut gi = 0;
+        for d in &deals {
+            if gi < got.len() && got[gi] == d.key {
+                gi += 1;
+            } else {
+                return Err(Fail::new("missing-deal", format!("scope {:?}..{:?}: legal deal never yielded: {} ({} of {} yielded)", index_pos(from), index_pos(to), describe_key(&c.cfg, d.key), got.len(), deals.len())));
+            }
+        }
+    }
+    let mut cls = 0u64;
+    if blocked > 0 {
+        cls |= 1;
+    }
+    if c.scopes.len() >= 2 {
+        cls |= 2;
+    }
+    if from == to {
+        cls |= 4;
+    }
+    Ok(Outcome::new(!deals.is_empty(), fp_of(&format!("{:?}", c)), cls))
+}
+pub const MODEL_CLASSES: &[&str] = &["player_player_collision", "repeated_scope_calls", "empty_window"];
+
+/// short windows (at most 60 positions) over small configurations, compared with the model
+pub fn model_window_strategy() -> impl Strategy<Value = Case> {
+    (cfg_strategy(), proptest::collection::vec((pos_strategy(), 0u16..60), 1..=3), 0u32..4).prop_filter_map("needs players", |(cfg, ws, extra_next)| {
+        if cfg.ranges.is_empty() {
+            return None;
+        }
+        Some(Case { cfg, scopes: ws.into_iter().map(|(a, d)| (a, (a + d).min(1176))).collect(), extra_next })
+    })
+}
+
 pub fn check_chain(c: &ChainCase) -> CheckResult {
     vensure!(c.cfg.valid() && c.cfg.scope.is_none() && c.cuts.windows(2).all(|w| w[0] <= w[1]) && c.cuts.iter().all(|x| *x <= 1176), "bad-case", "invalid chain");
     let full = FullRun::new(&c.cfg)?;
@@ -317,7 +397,7 @@ pub fn run(ctx: &mut Ctx) {
         assert_eq!(pos_index(p.0, p.1) as usize, i);
         assert_eq!(index_pos(i as u16), *p);
     }
-    ctx.rule = "positions = the 1176 (turn<river) deck-index pairs + terminal. (1) exhaustive: for fixed configurations, every ordered pair from <= to of the 1177 positions (693,253 windows each; quick 2 configurations, thorough 6) - the scoped run must equal the unscoped run's window position by position (multiset inside a position), be exhausted afterwards (3 more next() calls). (2) proptest histories: small generated configurations (pool/free ranges, players holding the first/last deck cards so head rows / the tail are empty, no players), 0-3 scope() calls before iteration (last wins), windows biased to row starts/ends/terminal/empty/one-position, next() after exhaustion (0-3 calls mostly, up to 20,000). (3) proptest chains: 0-63 sorted cut points (duplicates = empty scopes), every link compared and the concatenation compared with the full run. (4) windows over 3 ranges of 300-1326 combos (or 4 of up to 160) (more than 2^32 odometer slots, cannot be drained): the first showdowns must lie inside the window, in position order, start at the first position with a legal deal and be as many as the window provably holds. Non-trivial = window contains a row rollover, has an empty position at an edge, is empty or ends at the terminal (chains: >= 1 cut); distinct by (configuration, window/cuts).".into();
+    ctx.rule = "positions = the 1176 (turn<river) deck-index pairs + terminal. (1) exhaustive: for fixed configurations, every ordered pair from <= to of the 1177 positions (693,253 windows each; quick 2 configurations, thorough 6) - the scoped run must equal the unscoped run's window position by position (multiset inside a position), be exhausted afterwards (3 more next() calls). (2) proptest histories: small generated configurations (pool/free ranges, players holding the first/last deck cards so head rows / the tail are empty, no players), 0-3 scope() calls before iteration (last wins), windows biased to row starts/ends/terminal/empty/one-position, next() after exhaustion (0-3 calls mostly, up to 20,000). (3) proptest chains: 0-63 sorted cut points (duplicates = empty scopes), every link compared and the concatenation compared with the full run. (4) short windows compared directly with the enumeration model restricted to the window (independent of the unscoped run); (5) windows over 3 ranges of 300-1326 combos (or 4 of up to 160) (more than 2^32 odometer slots, cannot be drained): the first showdowns must lie inside the window, in position order, start at the first position with a legal deal and be as many as the window provably holds. Non-trivial = window contains a row rollover, has an empty position at an edge, is empty or ends at the terminal (chains: >= 1 cut); distinct by (configuration, window/cuts).".into();
     ctx.assumptions = vec![
         "only valid positions (t<r<=48 or (48,49)) with from <= to are generated; aliases like (47,49) are outside the statement".into(),
         "showdowns are compared through a 64-bit fingerprint of board, hole cards, power indexes, winner flags, winner_len and probability bits".into(),
@@ -372,6 +452,8 @@ pub fn run(ctx: &mut Ctx) {
     ctx.run_random_brief(StreamCfg::new("scope_chains", CHAIN_CLASSES, cases).shrink(300), chain_strategy, check_chain, |c| json!({"cfg": c.cfg.brief(), "cuts": c.cuts.iter().map(|x| index_pos(*x)).collect::<Vec<_>>()}));
     ctx.require_class("scope_chains", "empty_scope_in_chain", cases / 10);
     ctx.require_class("scope_chains", "cut_at_empty_position", cases / 20);
+    let cases = ctx.tier.pick(20_000, 300_000);
+    ctx.run_random_brief(StreamCfg::new("windows_against_model", MODEL_CLASSES, cases).shrink(300), model_window_strategy, check_window_model, |c| json!({"cfg": c.cfg.brief(), "scope_calls": c.scopes.iter().map(|(a, b)| (index_pos(*a), index_pos(*b))).collect::<Vec<_>>()}));
     // windows over configurations far too large to drain (slot counts beyond 2^32): prefix only
     let cases = ctx.tier.pick(200, 4_000);
     ctx.run_random_brief(
@@ -383,11 +465,15 @@ pub fn run(ctx: &mut Ctx) {
     ctx.require_class("huge_scoped_prefix", "window_slots_over_2_32", cases / 4);
     ctx.require_class("huge_scoped_prefix", "scoped", cases / 2);
     ctx.extra.insert("exhaustive_over".into(), json!(format!("all 693,253 (from <= to) windows for {} fixed configuration(s)", nsweep)));
+    if ctx.tier == Tier::Thorough && !ctx.failed() {
+        crate::fuzzrun::campaign(ctx, "fz_eval", 20_000, 16, 512);
+    }
 }
 
 pub fn replay(stream: &str, path: &str, case: &Value) -> i32 {
     match stream {
         "scope_chains" => replay_case::<ChainCase>("C04", path, case, check_chain),
+        "windows_against_model" => replay_case::<Case>("C04", path, case, check_window_model),
         "huge_scoped_prefix" => replay_case::<crate::props::c02::PrefixCase>("C04", path, case, crate::props::c02::check_prefix),
         _ => replay_case::<Case>("C04", path, case, check_case),
     }
